@@ -3,7 +3,7 @@
 From Coq Require Import List NArith Bool.
 From Storage Require Import Base.Bytes Lang.Tokens Lang.Lexer Lang.BoolGrammar Lang.Listener Lang.BoolSurface
   Lang.BoolGrammarProofs Lang.LexerProofs Lang.C12Proofs Lang.Regex Lang.LexerFull Lang.WordOps Lang.WordOpsProofs Lang.WordOpsLexProofs
-  Lang.BoolRows Lang.C12W3Proofs Lang.ChainGroupings Lang.C12W5Proofs.
+  Lang.BoolRows Lang.C12W3Proofs Lang.ChainGroupings Lang.C12W5Proofs Lang.C12W7Proofs.
 Import ListNotations.
 Open Scope N_scope.
 
@@ -244,4 +244,38 @@ Definition retarget (n : str) : str := if str_eqb n [97] then [98] else n.
 Example clause_retargeting_refuted :
   sem or3_plain rho_a = true /\ sem (renameE retarget or3_plain) rho_a = false /\
   sem or3_left rho_a = sem or3_plain rho_a /\ sem or3_right rho_a = sem or3_plain rho_a.
+Proof. vm_compute. repeat split. Qed.
+
+(* ---- after seeded changes C12-w7-2 / C12-w7-3: the operands of a chain in another order ---- *)
+From Coq Require Import Permutation.
+
+(* c or (a or b)  is a grouping of the clauses [c; a; b], a permutation of [a; b; c] *)
+Definition or3_rotated : expr := EOr c (ELast (XParen (EOr a (ELast b)))).
+Example or3_rotated_grouping : or_grouping [c; a; b] or3_rotated /\ Permutation [a; b; c] [c; a; b].
+Proof.
+  split.
+  - apply OgCons, OgLastGroup, OgCons, OgLast.
+  - apply Permutation_sym. change [c; a; b] with ([c] ++ [a; b]). change [a; b; c] with ([a; b] ++ [c]). apply Permutation_app_comm.
+Qed.
+
+(* both orders are accepted and agree on the row where only a holds *)
+Example any_order_instance :
+  exists t1 t2, compile fixed_prec (printE or3_plain) = Some t1 /\ compile fixed_prec (printE or3_rotated) = Some t2 /\
+                eval t1 rho_a = true /\ eval t2 rho_a = true.
+Proof. do 2 eexists. vm_compute. repeat split. Qed.
+
+(* an acceptance rule that depends on WHERE an operand stands - "a filter is valid when its marked operand (here: c) is
+   the last one of its chain" - is not invariant under commuting operands: it accepts  a or b or c  and refuses
+   c or (a or b), which the property (chain_in_any_order) makes the same filter *)
+Fixpoint last_prim (e : expr) : option prim :=
+  match e with
+  | ELast p => Some p
+  | ENot _ => None
+  | EAnd _ e' => last_prim e'
+  | EOr _ e' => last_prim e'
+  end.
+Definition marked_last (e : expr) : bool :=
+  match last_prim e with Some (XAtom n) => str_eqb n [99] | _ => false end.
+Example position_dependent_acceptance_refuted :
+  marked_last or3_plain = true /\ marked_last or3_rotated = false /\ sem or3_plain rho_a = sem or3_rotated rho_a.
 Proof. vm_compute. repeat split. Qed.
